@@ -363,9 +363,14 @@ def assemble(unit_file, canary=False, mutate_spec=None):
                     for dname in [x.strip() for x in m.group(1).split(",")]:
                         if dname in keep:
                             derives.append(dname)
+            txt = _strip_item_text(ex[relfile]["src"], it)
+            if "PartialEq" in derives and it["kind"] == "enum" and not re.search(r"[({]", txt[txt.index("{") + 1:]):
+                # ledger A7: the derived `==` of a FIELD-LESS enum compares variants.  Verus gives a derived PartialEq a meaning
+                # only together with `Eq, Structural`; inserted (ghost only) so that `a == B::X` in a body means `a is X`.
+                derives += [x for x in ("Eq", "Structural") if x not in derives]
+                asm.rewrites.append({"fn": key, "file": relfile, "from": "#[derive(PartialEq)] on a field-less enum", "to": "added derives Eq, Structural (A7)", "occurrences": 1})
             if derives:
                 asm.emit("#[derive(%s)]\n" % ", ".join(derives), {"kind": "gen"})
-            txt = _strip_item_text(ex[relfile]["src"], it)
             asm.emit(txt + "\n", {"kind": "repo-item", "file": relfile, "line0": it["span"][2], "key": key})
             asm.functions.append({"unit": asm.unit, "key": key, "kind": it["kind"], "file": relfile,
                                   "lines": [it["span"][2], it["span"][3]],
